@@ -250,8 +250,22 @@ func (d *ddfs) run(w *World, path []Event, devs int) {
 		if d.res.Terminal%d.validateEvery == 1 || d.validateEvery == 1 || d.lim.Determinism {
 			// validate this execution against the implementation: re-run the whole
 			// choice list on fresh objects and compare the final state key
-			w2, vs, at := replayChoicesCheck(d.sc, d.mf, path)
-			d.res.Replays++
+			// C19: map iteration order cannot be enumerated, only repeated: the same choice list is
+			// re-executed several times on fresh objects and every run has to agree
+			reps := 1
+			if d.lim.Determinism {
+				reps = 6
+			}
+			var w2 *World
+			var vs []*Violation
+			var at int
+			for rep := 0; rep < reps; rep++ {
+				w2, vs, at = replayChoicesCheck(d.sc, d.mf, path)
+				d.res.Replays++
+				if len(vs) > 0 || w2.Key(true) != w.Key(true) || (d.lim.Determinism && w2.Out != w.Out) {
+					break
+				}
+			}
 			if len(vs) > 0 {
 				// only the from-scratch execution shows it (e.g. aliasing with slices handed out earlier)
 				d.found(vs, path[:at])
